@@ -305,6 +305,7 @@ func (a *analysis) callPanics(info *types.Info, call *ast.CallExpr) bool {
 type analysis struct {
 	p           *core.Program
 	panicsCache map[*types.Func]int // 0 unknown, 1 computing, 2 yes, 3 no
+	refCache    map[*types.Func][]*types.Func
 }
 
 func newAnalysis(p *core.Program) *analysis {
@@ -391,4 +392,90 @@ func joinInts(xs []int64) string {
 		s = append(s, fmt.Sprint(x))
 	}
 	return strings.Join(s, ",")
+}
+
+// refs lists the module/foreign functions referenced (called, or used as a value) by f's body.
+func (a *analysis) refs(f *types.Func) []*types.Func {
+	if a.refCache == nil {
+		a.refCache = map[*types.Func][]*types.Func{}
+	}
+	if r, ok := a.refCache[f]; ok {
+		return r
+	}
+	a.refCache[f] = nil
+	d := a.p.FuncDecl(f)
+	if d == nil || d.Body == nil {
+		return nil
+	}
+	pkg := a.p.Pkgs[core.Rel(f.Pkg())]
+	if pkg == nil {
+		return nil
+	}
+	seen := map[*types.Func]bool{}
+	var out []*types.Func
+	ast.Inspect(d.Body, func(n ast.Node) bool {
+		var id *ast.Ident
+		switch x := n.(type) {
+		case *ast.Ident:
+			id = x
+		case *ast.SelectorExpr:
+			id = x.Sel
+		}
+		if id != nil {
+			if fn, ok := pkg.TypesInfo.Uses[id].(*types.Func); ok && !seen[fn] {
+				seen[fn] = true
+				out = append(out, fn)
+			}
+		}
+		return true
+	})
+	a.refCache[f] = out
+	return out
+}
+
+// reaches: some function satisfying pred is referenced transitively from f (through module function bodies).
+func (a *analysis) reaches(f *types.Func, pred func(*types.Func) bool) bool {
+	seen := map[*types.Func]bool{}
+	var dfs func(g *types.Func) bool
+	dfs = func(g *types.Func) bool {
+		if seen[g] {
+			return false
+		}
+		seen[g] = true
+		if pred(g) {
+			return true
+		}
+		for _, h := range a.refs(g) {
+			if dfs(h) {
+				return true
+			}
+		}
+		return false
+	}
+	return dfs(f)
+}
+
+// nodeReaches: some function satisfying pred is referenced from the AST node n (directly or transitively).
+func (a *analysis) nodeReaches(info *types.Info, n ast.Node, pred func(*types.Func) bool) bool {
+	found := false
+	ast.Inspect(n, func(x ast.Node) bool {
+		var id *ast.Ident
+		switch y := x.(type) {
+		case *ast.Ident:
+			id = y
+		case *ast.SelectorExpr:
+			id = y.Sel
+		}
+		if id != nil && !found {
+			if fn, ok := info.Uses[id].(*types.Func); ok && a.reaches(fn, pred) {
+				found = true
+			}
+		}
+		return !found
+	})
+	return found
+}
+
+func isUTF8Valid(f *types.Func) bool {
+	return f.Pkg() != nil && f.Pkg().Path() == "unicode/utf8" && (f.Name() == "Valid" || f.Name() == "ValidString")
 }
